@@ -1,6 +1,7 @@
 import Xsm.Model.Engine
 import Xsm.Model.Parse
 import Xsm.Model.Snapshot
+import Xsm.Model.SnapshotTree
 /-!
 Line-protocol driver for the executable model WITH snapshots (C12). Same protocol as `Driver.lean`
 (the shared part is a verbatim copy) plus
@@ -18,6 +19,10 @@ Line-protocol driver for the executable model WITH snapshots (C12). Same protoco
     RESET                       forget the run state, keep machine / valuation / flavour
     START | SEND <type> | AFTER <type> | DONE <type> <src>
                                 -> {"C":[ids],"S":status,"T":[records],"H":{owner:[ids]},"E":kind,"X":n}
+    TREE <json>                 {"services":[keys that resolve to a machine],"deep":bool,"keep":bool,"snap":<snapshot>}
+                                -> the actor-tree model (`Xsm/Model/SnapshotTree.lean`): {"snap": snapTree (restoreV ⟨deep,keep⟩ svc snap),
+                                   "live":[ids of the restored actors, DFS],"parked":[ids of the parked records, DFS],"sys":{..},"pend":{..}}
+                                   (needs no machine; the per-interpreter payload is every key but `actors` / `system`, kept verbatim)
     Q match <json-array-of-keys> <event>      -> {"r":[keys]}
     Q resolve <json path array> <target>      -> {"r":id|null}
 -/
@@ -104,6 +109,57 @@ def rerrKey : RErr → String
   | .shape k => ",\"key\":" ++ jstr k
   | _ => ""
 
+-- the actor-tree model on real snapshots ---------------------------------------------------------------------
+/-- payload of one interpreter: the keys of its actor record other than `src` / `snapshot` (`machine_id`, …: written back
+    verbatim) and the keys of its snapshot other than `actors` / `system` -/
+abbrev TPay := List (String × J) × List (String × J)
+
+instance : Inhabited (SnapTree.Snap TPay) := ⟨.mk ([], []) [] []⟩
+
+partial def toSnap (extras : List (String × J)) (j : J) : SnapTree.Snap TPay :=
+  match j with
+  | .obj kvs =>
+    let own := kvs.filter (fun kv => kv.1 != "actors" && kv.1 != "system")
+    let actors : List (String × Option String × SnapTree.Snap TPay) :=
+      match j.get? "actors" with
+      | some (.obj recs) => recs.map (fun r =>
+          let src := match r.2.get? "src" with | some (.str k) => some k | _ => none
+          let ex := match r.2 with | .obj rk => rk.filter (fun kv => kv.1 != "src" && kv.1 != "snapshot") | _ => []
+          (r.1, src, toSnap ex ((r.2.get? "snapshot").getD (.obj []))))
+      | _ => []
+    let system := match j.get? "system" with
+      | some (.obj es) => es.filterMap (fun e => match e.2 with | .str a => some (e.1, a) | _ => none)
+      | _ => []
+    .mk (extras, own) actors system
+  | _ => .mk (extras, []) [] []
+
+partial def ofSnap (s : SnapTree.Snap TPay) : J :=
+  match s with
+  | .mk (_, own) actors system =>
+    .obj (own ++ [("actors", .obj (actors.map (fun r =>
+              let ex := match r.2.2 with | .mk (e, _) _ _ => e
+              (r.1, J.obj ((ex.filter (fun kv => kv.1 == "machine_id")) ++
+                           [("src", match r.2.1 with | some k => J.str k | none => J.null), ("snapshot", ofSnap r.2.2)] ++
+                           (ex.filter (fun kv => kv.1 != "machine_id"))))))),
+                  ("system", .obj (system.map (fun e => (e.1, J.str e.2))))])
+
+partial def liveIds (t : SnapTree.Live TPay) : List String :=
+  match t with
+  | .mk _ kids _ _ _ => kids.flatMap (fun k => k.1 :: liveIds k.2.2)
+
+partial def parkedIds (t : SnapTree.Live TPay) : List String :=
+  match t with
+  | .mk _ kids parked _ _ => parked.map (·.1) ++ kids.flatMap (fun k => parkedIds k.2.2)
+
+def treeQuery (j : J) : String :=
+  let svcs := match j.get? "services" with | some a => jsonStrings a | none => []
+  let b := fun (k : String) => match j.get? k with | some (.bool x) => x | _ => false
+  let v : SnapTree.Variant := ⟨b "deep", b "keep"⟩
+  let t := SnapTree.restoreV v (fun k => svcs.contains k) (toSnap [] ((j.get? "snap").getD .null))
+  let pairs := fun (l : List (String × String)) => "{" ++ ",".intercalate (l.map (fun e => jstr e.1 ++ ":" ++ jstr e.2)) ++ "}"
+  "{\"snap\":" ++ renderJ (ofSnap (SnapTree.snapTree t)) ++ ",\"live\":" ++ jarr ((liveIds t).map jstr)
+    ++ ",\"parked\":" ++ jarr ((parkedIds t).map jstr) ++ ",\"sys\":" ++ pairs t.sys ++ ",\"pend\":" ++ pairs t.pend ++ "}"
+
 structure DS where
   m : Option Machine := none
   env : List (String × GOut) := []
@@ -127,6 +183,10 @@ def handle (d : DS) (line : String) : DS × String :=
   else if line = "F sync" then ({ d with fl := .sync }, "{\"ok\":true}")
   else if line = "F async" then ({ d with fl := .async }, "{\"ok\":true}")
   else if line = "RESET" then ({ d with s := {} }, "{\"ok\":true}")
+  else if line.startsWith "TREE " then
+    match parseJson (dropPrefix line 5) with
+    | .error e => (d, "{\"err\":" ++ jstr e ++ "}")
+    | .ok j => (d, treeQuery j)
   else if line.startsWith "Q match " then
     let rest := dropPrefix line 8
     -- keys json array, then a space, then the event (the array contains no "] " inside strings in our use)
